@@ -17,6 +17,7 @@ from dataclasses import dataclass, field
 from typing import Any, Callable, Dict, List, Optional, Sequence, Tuple
 
 from .src import AnalysisError, Module
+from .sym import from_ast  # noqa: E402
 from .sym import (
     A, C, CALL, N, OP, Sym, _Builder, dotted, is_const, show, simplify, freeze, HDict,
 )
@@ -199,6 +200,9 @@ class Interp:
                 self.mutated_locals.add(n_.func.value.id)
             elif isinstance(n_, ast.Subscript) and isinstance(n_.ctx, (ast.Store, ast.Del)) and isinstance(n_.value, ast.Name):
                 self.mutated_locals.add(n_.value.id)
+        # tables of the class metadata that are derived from another of its tables in one comprehension
+        # (`self.T = {k: EXPR(k, v) for k, v in base.items()}`): a lookup T.get(K) is EXPR at (K, BASE.get(K)), None when BASE has no K
+        self.derived_tables = _derived_tables(self.mod)
         self.append_only = set()
         if self.replay_logs:
             uses = {}
@@ -927,6 +931,38 @@ class _EvalBuilder(_Builder):
             s = self._fold_call(s)
             if s[0] != "call":
                 return s
+            if not self.pure and i.derived_tables and s[1][0] == "a" and s[1][2] == "get" and s[1][1][0] == "a" and s[1][1][2] in i.derived_tables and len(s[2]) == 1 and not s[3]:
+                owner = s[1][1][1]
+                base_attr, kvar, vvar, val_ast, local_attr = i.derived_tables[s[1][1][2]]
+                L = i._rewrite(("call", A(A(owner, base_attr), "get"), (s[2][0],), ()))
+                if L[0] == "c" and L[1] is None or (L[0] != "c" and not i.decide(L)):
+                    return C(None)
+
+                def res_(nm: str):
+                    if nm == kvar:
+                        return s[2][0]
+                    if nm == vvar:
+                        return L
+                    if nm == "self":
+                        return owner
+                    if nm in local_attr:
+                        return A(owner, local_attr[nm])
+                    return None
+
+                def rw_(t):
+                    if isinstance(t, tuple) and t and t[0] in ("tuple", "list"):
+                        return (t[0], tuple(rw_(x) for x in t[1]))
+                    if isinstance(t, tuple) and t and t[0] == "op":
+                        return simplify(("op", t[1]) + tuple(rw_(x) for x in t[2:]))
+                    if isinstance(t, tuple) and t and t[0] in ("n", "a", "sub", "item"):
+                        t2 = t
+                        if t[0] == "sub":
+                            t2 = ("sub", rw_(t[1]), rw_(t[2]))
+                        elif t[0] == "a":
+                            t2 = ("a", rw_(t[1]), t[2])
+                        return i._rewrite(t2)
+                    return t
+                return rw_(from_ast(val_ast, res_))
             if not self.pure and i.auto_inline and s[1][0] == "call" and s[1][1][0] == "n" and not s[1][3]:
                 # F(..)(args): a factory / selector of the module; what it returns (a closure, a function reference) is applied
                 inner = self._maybe_inline(s[1], n)
@@ -1348,6 +1384,36 @@ class _EvalBuilder(_Builder):
         except Exception:
             pass
         return (i.mod, fn)
+
+
+_DERIVED_CACHE: Dict[int, Dict[str, Any]] = {}
+
+
+def _derived_tables(mod) -> Dict[str, Any]:
+    key = id(mod)
+    if key in _DERIVED_CACHE:
+        return _DERIVED_CACHE[key]
+    out: Dict[str, Any] = {}
+    nodes = mod.defs.get("ProtoClassMetadata.__init__")
+    if nodes and isinstance(nodes[0], ast.FunctionDef):
+        init = nodes[0]
+        local_attr: Dict[str, str] = {}
+        for st in ast.walk(init):
+            if isinstance(st, ast.Assign) and len(st.targets) == 1 and isinstance(st.targets[0], ast.Attribute) and isinstance(st.targets[0].value, ast.Name) \
+                    and st.targets[0].value.id == "self" and isinstance(st.value, ast.Name):
+                local_attr[st.value.id] = st.targets[0].attr
+        for st in init.body:
+            if isinstance(st, ast.Assign) and len(st.targets) == 1 and isinstance(st.targets[0], ast.Attribute) and isinstance(st.targets[0].value, ast.Name) \
+                    and st.targets[0].value.id == "self" and isinstance(st.value, ast.DictComp) and len(st.value.generators) == 1 and not st.value.generators[0].ifs:
+                g = st.value.generators[0]
+                it = g.iter
+                if isinstance(it, ast.Call) and isinstance(it.func, ast.Attribute) and it.func.attr == "items" and isinstance(it.func.value, ast.Name) and it.func.value.id in local_attr \
+                        and isinstance(g.target, ast.Tuple) and len(g.target.elts) == 2 and all(isinstance(e, ast.Name) for e in g.target.elts) \
+                        and isinstance(st.value.key, ast.Name) and st.value.key.id == g.target.elts[0].id:
+                    out[st.targets[0].attr] = (local_attr[it.func.value.id], g.target.elts[0].id, g.target.elts[1].id, st.value.value, dict(local_attr))
+    _DERIVED_CACHE.clear()
+    _DERIVED_CACHE[key] = out
+    return out
 
 
 def _sym_function_refs():
